@@ -10,6 +10,8 @@ Tie:   T — Generated/TableShape.lean: every insertion into a per-exchange tabl
            udp/tcp connections under synctest, sizes of all tables through the verif-tagged accessors (hook h2) at every
            idle point and after housekeeping ticks at virtual times past every deadline; discovery tables over a real
            loopback socket.  Judged by Spec/Quiescence.lean; final sizes compared with the model's.
+       Tenth round: second use of caller-owned request messages (mobs/mdo/mwrite, reuse_family) with an aliasing probe of the
+       stored observation token; Props/C13Token.lean (stored keys are values fixed at registration).
 """
 import glob
 import json
@@ -18,7 +20,7 @@ import random
 
 from . import common
 
-MODULES = ["CoapVerif.Props.C13", "CoapVerif.Props.C18Runner"]
+MODULES = ["CoapVerif.Props.C13", "CoapVerif.Props.C13Token", "CoapVerif.Props.C18Runner"]
 GENERATED = ["TableShape.lean"]
 
 
@@ -261,6 +263,77 @@ def nstart_family(rng=None):
         ]
     return out
 
+def reuse_family(rng=None):
+    """Second use of a request message: an application that builds its requests by hand in a message object of its own
+    (AcquireMessage once, then SetupGet / SetupPost with the next token, no Reset in between) - observe registrations, plain and
+    block-wise requests and one-way writes written into the same object one after the other (each after the previous call has
+    returned), tokens of the same and of different lengths, cancellations only later.  Whatever the application writes into ITS
+    message after a call returned, the tables are keyed by the token the exchange was registered with: a cancelled observation
+    leaves nothing (bounded-by-live-work at the point where Cancel returned, retains-nothing at the end), and the harness
+    probes every live observation registered from a message object when that object is written again (stored-key-changed)."""
+    fixed = rng is None
+    r = rng or random.Random(13)
+    out = []
+    if fixed:
+        out += [
+            # the seeder-independent core: register, reuse the object for a plain request with a token of the same length, cancel
+            "scn udp 0 0 0 mobs:1:4:1:o:0 resp:1:pig:69:4:1 mdo:1:4:2:2:b:con:0:0 resp:2:pig:69:4:- obscancel:1 resp:1:pig:69:4:- settle resp:1:non:69:4:9 settle",
+            "scn tcp 0 0 0 mobs:1:8:1:o:0 resp:1:x:69:4:1 mdo:1:8:2:2:b:con:0:0 resp:2:x:69:4:- resp:1:x:69:4:2 obscancel:1 resp:1:x:69:4:- settle",
+            # two observations from one object, cancelled in both orders
+            "scn udp 0 0 0 mobs:1:4:1:o:0 resp:1:pig:69:4:1 mobs:1:4:2:p:0 resp:2:pig:69:4:1 obscancel:1 resp:1:pig:69:4:- obscancel:2 resp:2:pig:69:4:- settle",
+            "scn udp 1 0 0 mobs:1:8:1:o:0 resp:1:pig:69:4:1 mobs:1:2:2:p:0 resp:2:pig:69:4:1 obscancel:2 resp:2:pig:69:4:- resp:1:non:69:4:5 obscancel:1 resp:1:pig:69:4:- settle",
+            # token tables and block-wise buffers: plain / block-wise requests and one-way writes from one object
+            "scn udp 1 0 0 mdo:1:4:1:1:a:con:40:0 cont:1:0 cont:1:1 resp:1:pig:68:0:- mdo:1:4:2:2:a:con:0:0 resp:2:non:69:40:- blk2:2:1:1:non blk2:2:2:0:non mdo:1:2:3:3:b:non:0:2 sleep:2500 mwrite:1:8:4:non mdo:1:8:5:5:a:con:40:0 cont:5:0 cancel:5 settle",
+            "scn tcp 1 0 0 mdo:1:8:1:1:a:con:0:0 resp:1:x:69:4:- mobs:1:8:2:o:0 resp:2:x:69:4:1 mdo:1:8:3:3:a:con:40:0 cont:3:0 cont:3:1 resp:3:x:68:0:- obscancel:2 resp:2:x:69:4:- settle",
+        ]
+    for _ in range(6 if fixed else 4):
+        udp = r.random() < 0.6
+        bw = r.random() < 0.5
+        first, nk = ("pig", "non") if udp else ("x", "x")
+        nid = [1]
+        ops, live, gone = [], [], []
+
+        def new():
+            nid[0] += 1
+            return nid[0] - 1
+        for _u in range(r.randrange(2, 7)):
+            sl = r.choice([1, 1, 2])
+            tl = r.choice([4, 4, 8, 8, 2, 1, 6])
+            i = new()
+            k = r.random()
+            if k < 0.4:
+                ops += ["mobs:%d:%d:%d:%s:0" % (sl, tl, i, r.choice("op")), "resp:%d:%s:69:4:%d" % (i, first, r.randrange(1, 50))]
+                live.append(i)
+            elif k < 0.6:
+                typ = r.choice(["con", "non"]) if udp else "con"
+                ops += ["mdo:%d:%d:%d:%d:%s:%s:0:0" % (sl, tl, i, i, r.choice("ab"), typ),
+                        "resp:%d:%s:69:4:-" % (i, ("pig" if typ == "con" else "non") if udp else "x")]
+            elif k < 0.72 and bw:
+                ops += ["mdo:%d:%d:%d:%d:a:con:40:0" % (sl, tl, i, i), "cont:%d:0" % i]
+                ops += ["cont:%d:1" % i, "resp:%d:%s:68:0:-" % (i, first)] if r.random() < 0.6 else ["cancel:%d" % i]
+            elif k < 0.82:
+                ops += ["mdo:%d:%d:%d:%d:b:%s:0:2" % (sl, tl, i, i, "non" if udp else "con"), "sleep:2500"]      # deadline
+            elif k < 0.9 and udp:
+                ops += ["mwrite:%d:%d:%d:non" % (sl, tl, i)]
+            else:
+                ops += ["mdo:%d:%d:%d:%d:a:%s:0:0" % (sl, tl, i, i, "non" if udp else "con"), "cancel:%d" % i]      # given up
+            for o in live:
+                if r.random() < 0.3:
+                    ops += ["resp:%d:%s:69:4:%d" % (o, nk, 100 + len(ops))]
+            if live and r.random() < 0.35:
+                o = live.pop(r.randrange(len(live)))
+                gone.append(o)
+                ops += ["obscancel:%d" % o] + (["resp:%d:%s:69:4:-" % (o, first)] if r.random() < 0.8 else [])
+        r.shuffle(live)
+        for o in live[:r.randrange(0, len(live) + 1)]:
+            gone.append(o)
+            ops += ["obscancel:%d" % o, "resp:%d:%s:69:4:-" % (o, first)]
+        for o in gone:
+            if r.random() < 0.6:
+                ops += ["resp:%d:%s:69:4:%d" % (o, nk, 900 + o)]      # a notification after the cancellation returned
+        ops += ["settle"]
+        out.append("scn %s %d 0 0 %s" % ("udp" if udp else "tcp", 1 if bw else 0, " ".join(ops)))
+    return out
 
 
 FIXED = [
@@ -305,7 +378,9 @@ def corpus_lines():
 
 def gen_lines(ctx):
     rng = random.Random(ctx.seed * 104729 + 13)
-    L = [(l, 1) for l in corpus_lines() + FIXED + nstart_family() + bulk_family()]
+    L = [(l, 1) for l in corpus_lines() + FIXED + nstart_family() + bulk_family() + reuse_family()]
+    for _ in range(60 if ctx.tier == "thorough" else 10):
+        L += [(l, 1) for l in reuse_family(rng)]
     for _ in range(10 if ctx.tier == "thorough" else 1):
         L += [(l, 1) for l in bulk_family(rng)]
     for _ in range(30 if ctx.tier == "thorough" else 4):
